@@ -133,6 +133,11 @@ def has_structure(v):
 
 
 def check(case, ctx):
+    from yv import fuzzphase
+    if fuzzphase.note_stats(case, ctx):
+        return
+    if 'fuzz' in case:
+        case = {'model': fuzzphase.model_of(case), 'text': case['text'], 'src': 'fuzz'}
     m = models.build(case['model'])
     load = m.load
     text = case['text']
@@ -169,4 +174,8 @@ def check(case, ctx):
 
 def phases(tier):
     n = 320 if tier != 'thorough' else 4000
-    return [HypPhase('models_x_documents', cases(), n)]
+    ph = [HypPhase('models_x_documents', cases(), n)]
+    if tier == 'thorough':
+        from yv import fuzzphase
+        ph.append(fuzzphase.fuzz_phase('C01', 200000))
+    return ph
